@@ -5,7 +5,7 @@
 use crate::rng::Rng;
 use crate::tygen::{Def, Module};
 
-pub const KINDS: usize = 15;
+pub const KINDS: usize = 16;
 
 /// `(tag, items)`; `items` goes inside the bridge module
 pub fn extras(rng: &mut Rng, m: &Module, option: bool) -> (String, String) {
@@ -131,6 +131,16 @@ pub fn snippet(rng: &mut Rng, k: usize, opaque: &str, enm: Option<&str>, option:
             let (a, b) = *rng.pick(&[("geo", "screen"), ("a::b", "a::c"), ("outer", "outer::inner")]);
             ("same-name-namespaces", format!(
                 "    #[diplomat::attr(auto, namespace = \"{a}\")]\n    #[diplomat::attr(cpp, rename = \"Point\")]\n    pub struct XtGeoPoint {{ pub x: {p} }}\n    #[diplomat::attr(auto, namespace = \"{b}\")]\n    #[diplomat::attr(cpp, rename = \"Point\")]\n    pub struct XtScreenPoint {{ pub x: {p}, pub y: u8 }}\n    #[diplomat::opaque]\n    #[diplomat::attr(auto, namespace = \"{a}\")]\n    #[diplomat::attr(cpp, rename = \"Handle\")]\n    pub struct XtGeoHandle;\n    #[diplomat::opaque]\n    #[diplomat::attr(auto, namespace = \"{b}\")]\n    #[diplomat::attr(cpp, rename = \"Handle\")]\n    pub struct XtScreenHandle;\n    #[diplomat::opaque]\n    pub struct XtProjector;\n    impl XtProjector {{\n        pub fn project(&self, p: XtGeoPoint) -> XtScreenPoint {{ unimplemented!() }}\n        pub fn handles<'a>(&'a self, g: &'a XtGeoHandle, s: &'a XtScreenHandle) -> &'a XtScreenHandle {{ unimplemented!() }}\n    }}\n"))
+        }
+        15 => {
+            // every kind of documentation link, in every display mode
+            let kinds = ["Struct", "StructField", "Enum", "EnumVariant", "EnumVariantField", "Trait", "FnInStruct", "FnInTypedef", "FnInEnum", "FnInTrait", "DefaultFnInTrait", "Fn", "Mod", "Constant", "AssociatedConstantInEnum", "AssociatedConstantInTrait", "AssociatedConstantInStruct", "Macro", "AssociatedTypeInEnum", "AssociatedTypeInTrait", "AssociatedTypeInStruct", "Typedef"];
+            let mut methods = String::new();
+            for (i, k) in kinds.iter().enumerate() {
+                let display = ["", ", compact", ", hidden"][i % 3];
+                methods += &format!("        /// Link number {i}.\n        #[diplomat::rust_link(alpha::beta::Gamma::delta, {k}{display})]\n        #[diplomat::rust_link(alpha::beta::Gamma::epsilon, {k})]\n        pub fn l{i}(&self) -> {p} {{ unimplemented!() }}\n");
+            }
+            ("rust-links", format!("    /// Linked type.\n    #[diplomat::rust_link(alpha::beta::Gamma, Struct)]\n    #[diplomat::opaque]\n    pub struct XtLinks;\n    impl XtLinks {{\n{methods}    }}\n"))
         }
         14 => ("enum-method-cycles", format!(
             "    pub enum XtChan {{ R, G }}\n    pub struct XtPixel {{ pub c: XtChan, pub v: {p} }}\n    impl XtChan {{\n        pub fn of(px: XtPixel) -> XtChan {{ unimplemented!() }}\n        pub fn to_pixel(self) -> XtPixel {{ unimplemented!() }}\n    }}\n    pub enum XtUnit {{ M, S }}\n    pub enum XtScale {{ K, G2 }}\n    impl XtUnit {{ pub fn scale(self) -> XtScale {{ unimplemented!() }} }}\n    impl XtScale {{ pub fn unit(self, u: XtUnit) -> XtUnit {{ unimplemented!() }} }}\n")),
